@@ -79,16 +79,16 @@ def _base_level(n, quick):
 _BC = {}
 
 
-def _bases(level, ny, nz, vsy, vsz, ax, cutoff):
-    k = (level, ny, nz, vsy, vsz, ax, cutoff)
+def _bases(level, ny, nz, vsy, vsz, ax, cutoff, by=None, cz=None):
+    k = (level, ny, nz, vsy, vsz, ax, cutoff, by, cz)
     if k not in _BC:
         if level <= 0:
-            b = nd.voxel_bases(ny, nz, vsy, vsz, ax, cutoff, True)
+            b = nd.voxel_bases(ny, nz, vsy, vsz, ax, cutoff, True, by, cz)
             b = [x for x in b if x[3][0] in (0, ny) and x[3][1] in (0, nz)]
             if level < 0:
                 b = [x for x in b if x[3][2] == 0 and x[3][3] == 0]
         else:
-            b = nd.voxel_bases(ny, nz, vsy, vsz, ax, cutoff, level == 1)
+            b = nd.voxel_bases(ny, nz, vsy, vsz, ax, cutoff, level == 1, by, cz)
         _BC[k] = b
     return _BC[k]
 
@@ -125,7 +125,8 @@ def _voxel_setup_(ci, cf, n, design, quick, f):
         return _bases(_base_level(n, quick), ny, nz, float(vsy), float(vsz), float(L[0]), cutoff), (ny, nz, float(vsy), float(vsz)), None
     v32 = _stored_vectors(gen, FRAME_SCALE[f])
     ny, nz, vsy, vsz, vr = nd.voxel_geometry_periodic(v32, cutoff)
-    return _bases(_base_level(n, quick), ny, nz, float(vsy), float(vsz), float(vr[0, 0]), cutoff), (ny, nz, float(vsy), float(vsz)), vr
+    return _bases(_base_level(n, quick), ny, nz, float(vsy), float(vsz), float(vr[0, 0]), cutoff, float(vr[1, 1]),
+                  float(vr[2, 2])), (ny, nz, float(vsy), float(vsz)), vr
 
 
 def _cutoff(gen, cf):
@@ -286,7 +287,7 @@ def run_case(arg):
     ci, cf, n, design, v0, v1 = case
     xyz, lengths, angles, cutoff, cell, keys = _build(case, quick, seed)
     st = dict(evals=0, excluded=0, nontrivial=[], nt_open=0, err=0.0, abserr=0.0, pairs_in=0, pairs_out=0,
-              straddling_in=0, frames=len(keys), sample=None, inbrick=0, outside=0)
+              straddling_in=0, frames=len(keys), sample=None, inbrick=0, outside=0, atface=0)
     recs = []
     cc = _cellclass(cell)
     if cell is None:
@@ -322,6 +323,9 @@ def run_case(arg):
         else:
             pos = "inbrick" if nd.in_brick(t.xyz[fi], red[keys[fi][1]]) else "outside"
             st[pos] += 1
+            if pos == "inbrick" and nd.at_face(t.xyz[fi], red[keys[fi][1]]):
+                pos = "inbrick-at-face"
+                st["atface"] += 1
         POS.append(pos)
         st["excluded"] += int(amb.sum()) // 2
         st["pairs_in"] += int(cin.sum()) // 2
@@ -439,7 +443,7 @@ def run(ctx):
     for i, r in zip(order, res_o):
         res[i] = r
     nontrivial = set()
-    tot = dict(evals=0, excluded=0, nt_open=0, pairs_in=0, pairs_out=0, straddling_in=0, frames=0, inbrick=0, outside=0)
+    tot = dict(evals=0, excluded=0, nt_open=0, pairs_in=0, pairs_out=0, straddling_in=0, frames=0, inbrick=0, outside=0, atface=0)
     err = abserr = 0.0
     samples = []
     per_design = {}
@@ -472,6 +476,7 @@ def run(ctx):
         "frames": tot["frames"],
         "frames_all_atoms_in_brick_cell": tot["inbrick"],
         "frames_some_atom_outside_brick_cell": tot["outside"],
+        "frames_in_brick_with_atom_within_2ulp_of_upper_face": tot["atface"],
         "nontrivial_by_design": per_design,
         "nontrivial_open_cases": tot["nt_open"],
         "pairs_clearly_inside": tot["pairs_in"],
